@@ -184,3 +184,34 @@ Definition c08_failures (k : c08case) : list nat :=
            (ac_events a) (ac_obs a) 0.
 Definition c08_notes (k : c08case) : bool :=
   existsb (fun o => negb (is_nilb (filter is_note_msg (o_midi o)))) (ac_obs (c8_k k)).
+
+(* ====================================================================== C01 with key-emulating axes *)
+(* an axis is physically at rest when its exact (rational) centred position is inside (-0.49, 0.49); never moved = at rest *)
+Record c1axis := { x_code : N; x_mn : Z; x_mx : Z; x_dzc : bool; x_dz : f64 }.
+Record c01acase := { c1_axes : list c1axis; c1_k : acase }.
+
+Definition axis_at_rest (x : c1axis) (raw : Z) : bool :=
+  match Q_of_f (x_dz x) with
+  | None => false
+  | Some dz =>
+      let '(p, canneg) := exact_position (x_mn x) (x_mx x) (x_dzc x) false dz raw in
+      let v := if canneg then p else (p * 2 - 1)%Q in
+      Qltb (Qabs' v) (49 # 100)
+  end.
+
+Fixpoint c01a_scan (axes : list c1axis) (kt : list N) (last : list (N * Z)) (R : list pair) (h : list fev) (obs : list ostep) (i : nat) : list nat :=
+  match h, obs with
+  | e :: r, o :: os =>
+      let kt' := match e with FKey _ k v => next_keys_r kt (EKey 0 k v) | _ => kt end in
+      let last' := match e with FAbs _ code raw => set N.eqb code raw last | _ => last end in
+      let R' := recv R (o_midi o) in
+      let rest := forallb (fun x => match get N.eqb (x_code x) last' with Some raw => axis_at_rest x raw | None => true end) axes in
+      (if is_nilb kt' && rest && negb (is_nilb R') then [i] else []) ++ c01a_scan axes kt' last' R' r os (S i)
+  | _, _ => []
+  end.
+
+Definition c01a_failures (k : c01acase) : list nat :=
+  let a := c1_k k in
+  c01a_scan (c1_axes k) [] [] [] (ac_events a) (ac_obs a) 0 ++
+  (if is_nilb (recv (recv [] (flat_map o_midi (ac_obs a))) (ac_cleanup a)) then [] else [length (ac_events a)]).
+Definition c01a_mismatch (k : c01acase) : option nat := c08_mismatch (c1_k k).
